@@ -15,6 +15,7 @@ import ArchSim.Model.ToyAsm
 import ArchSim.Model.Asm
 import ArchSim.Model.Sim
 import ArchSim.Model.Views
+import ArchSim.Model.SimViews
 
 namespace Driver
 open ArchSim
@@ -209,6 +210,7 @@ structure State where
   dc   : Option DC := none
   sim  : Option (Bool × Pipe.PSt) := none       -- (five-stage?, state)
   simStarted : Bool := false                    -- `RiscvSimulation.has_started` (`Model.Sim.RSim.started`)
+  simBefore : Option Rv.St := none              -- the state the single-stage register describes (`SimViews.beforeAfter`)
   toy  : Toy.TSim := {}
 
 def parseInstr (tok : String) : Option Rv.Instr :=
@@ -270,6 +272,31 @@ def simRun (five : Bool) : Nat → Pipe.PSt → Nat → Pipe.PSt × Nat × Optio
     else match simStep five p with
       | (p', some f) => (p', n, some f)
       | (p', none) => simRun five fuel p' (n + 1)
+
+/-- The state the single-stage register describes after `run()` (`SimViews.beforeAfter` along the steps). -/
+def simRunBefore (five : Bool) : Nat → Pipe.PSt → Option Rv.St → Option Rv.St
+  | 0, _, b => b
+  | fuel + 1, p, b =>
+    if simDone five p then b
+    else match simStep five p with
+      | (_, some _) => b
+      | (p', none) => simRunBefore five fuel p' (SimViews.beforeAfter { five := five, p := p } b)
+
+def optHexStr : Option String → String
+  | some s => hex s
+  | none => "-"
+
+def statsStr (withAddr : Bool) : Option SimViews.Stats → String
+  | none => "none"
+  | some s => s!"{hex s.hits},{hex s.accesses},{boolStr s.lastHit},{if withAddr then optHexStr s.address else "?"}"
+
+def listingStr (rows : List SimViews.ListRow) : String :=
+  if rows.isEmpty then "." else
+  String.intercalate ";" (rows.map fun r => s!"{r.addr},{hex r.addrText},{hex r.instr},{hex r.stage}")
+
+def listingTextStr (rows : List SimViews.ListRow) : String :=
+  if rows.isEmpty then "." else
+  String.intercalate ";" (rows.map fun r => s!"{r.addr},{hex r.addrText},{hex r.instr}")
 
 def dcApply (dc : DC) (victim : Option Nat) (f : {σ : Type} → Cache.PolicyOps σ → Cache.DSys σ → Cache.Out σ) :
     DC × String :=
@@ -385,7 +412,7 @@ def process (st : State) (line : String) : State × String :=
   | ["sim.new", mode, hz, dspec, ispec] =>
     match newMemSys dspec, newICache ispec with
     | some ms, some ic =>
-      ({ st with sim := some (mode = "five", Pipe.PSt.init (freshSt ms ic) (hz = "1")), simStarted := false }, "ok")
+      ({ st with sim := some (mode = "five", Pipe.PSt.init (freshSt ms ic) (hz = "1")), simStarted := false, simBefore := none }, "ok")
     | _, _ => (st, "bad-op")
   | "sim.prog" :: toks =>
     match st.sim with
@@ -417,7 +444,9 @@ def process (st : State) (line : String) : State × String :=
     match st.sim with
     | some (five, p) =>
       let (p', f) := simStep five p
-      ({ st with sim := some (five, p'), simStarted := simStartedAfter five p st.simStarted }, match f with | none => s!"ok {boolStr (!simDone five p')}" | some s => s)
+      ({ st with sim := some (five, p'), simStarted := simStartedAfter five p st.simStarted,
+                 simBefore := SimViews.beforeAfter { five := five, p := p } st.simBefore },
+        match f with | none => s!"ok {boolStr (!simDone five p')}" | some s => s)
     | none => (st, "bad-op")
   | ["sim.split"] =>
     match st.sim with
@@ -433,7 +462,8 @@ def process (st : State) (line : String) : State × String :=
     | some (five, p), some fuel =>
       let (p', k, f) := simRun five fuel p 0
       -- `run()` calls `step()` at least once unless the simulation is done (or no fuel is given)
-      ({ st with sim := some (five, p'), simStarted := if fuel = 0 then st.simStarted else simStartedAfter five p st.simStarted }, match f with | none => s!"ran {k} {boolStr (simDone five p')}" | some s => s!"ran {k} {s}")
+      ({ st with sim := some (five, p'), simStarted := if fuel = 0 then st.simStarted else simStartedAfter five p st.simStarted,
+                 simBefore := simRunBefore five fuel p st.simBefore }, match f with | none => s!"ran {k} {boolStr (simDone five p')}" | some s => s!"ran {k} {s}")
     | _, _ => (st, "bad-op")
   | ["sim.started"] => (st, boolStr st.simStarted)
   | ["sim.done"] =>
@@ -511,6 +541,25 @@ def process (st : State) (line : String) : State × String :=
   | ["sim.memtable"] =>
     match st.sim with
     | some (_, p) => (st, memTable p.st.mem.backing)
+    | none => (st, "bad-op")
+  /- program listing with its stage column, cache statistics (C14 / C09 / C11) -/
+  | ["sim.listing"] =>
+    match st.sim with
+    | some (five, p) => (st, listingStr (SimViews.listingOf { five := five, p := p } st.simBefore))
+    | none => (st, "bad-op")
+  | ["sim.listingtext"] =>
+    match st.sim with
+    | some (_, p) => (st, listingTextStr (SimViews.listing p.st.imem.prog []))
+    | none => (st, "bad-op")
+  | ["sim.dstats"] =>
+    match st.sim with
+    | some (five, p) =>
+      (st, if five then statsStr true (SimViews.fiveDataStats p) else statsStr false (SimViews.dataStats p.st.mem none))
+    | none => (st, "bad-op")
+  | ["sim.istats"] =>
+    match st.sim with
+    | some (five, p) =>
+      (st, statsStr true (if five then SimViews.fiveInstrStats p else SimViews.singleInstrStats p.st st.simBefore))
     | none => (st, "bad-op")
   | ["toy.regtable"] => (st, toyRegTable st.toy)
   | ["toy.memtable"] => (st, toyMemTable st.toy)
